@@ -24,3 +24,9 @@ Theorem C06_accept_wf_refuted_on_pinned_code :
     accept false padopt d = Some i /\ ~ Forall (fun f => 0 <= flen f) (i_files i).
 Proof. exact accept_wf_refuted_pinned. Qed.
 Print Assumptions C06_accept_wf_refuted_on_pinned_code.
+
+(* the decoder recurses once per nesting level: every accepted torrent file or info dictionary has at most
+   64 levels of lists and dictionaries (deeper input is refused before it is decoded) *)
+Theorem C06_accepted_nesting_bounded : forall w n k, run_nesting [w; n; k] = [1] -> nesting_levels w n <= max_nesting.
+Proof. exact accepted_nesting_bounded. Qed.
+Print Assumptions C06_accepted_nesting_bounded.
